@@ -2,6 +2,7 @@ import RxModel.StructCaptures
 import RxModel.StructOps
 import RxGen.Captures
 import RxProofs.Lemmas.StructFrame
+import RxProofs.Lemmas.StructCatalogue
 /-!
 # C44 — an operator function can be applied to many sources independently
 
@@ -56,6 +57,39 @@ theorem refcount_asis_leaks :
     outputsOf 0 (runG refCountAsIs (0, false) [] acts) = [.srcSubscribe 0, .connect, .srcUnsubscribe 0] ∧
     outputsOf 1 (runG refCount () [] acts) = [.srcSubscribe 0, .connect, .srcUnsubscribe 0, .disconnect] := by
   decide
+
+/-! ### The catalogue, one level up: applications of one operator function
+
+An application of an operator to a source, with all the subscriptions made to the result, is one
+instance (`Sys.lift`); the operator function's own state is the shared state.  For the handler
+records of the element-wise (`Ops.Op`) and aggregating (`Agg.Op`) families (the list is in
+`RxProofs/C04.lean`) that state is trivial, so `apply_independent` applies to every one of them. -/
+section catalogue
+open Struct.Catalogue
+
+/-- **catalogue_apply_independent.** For every `Ops.Op` record: what application `j` (all its
+subscriptions together) emits under any interleaving with the other applications of the same operator
+function is what it emits alone on a fresh operator. -/
+theorem catalogue_ops_apply_independent {α β : Type} (lag : Bool) (op : Ops.Op α β)
+    (acts : List (Act (Act (Notif α)))) (j : Nat) :
+    outputsOf j (runG (ofOps lag op).lift () [] acts) = runI (ofOps lag op).lift () none (restrict j acts) :=
+  apply_independent _ (lift_framed _ (ofOps_framed lag op)) () acts j
+
+theorem catalogue_agg_apply_independent {α β : Type} (lag : Bool) (op : Agg.Op α β)
+    (acts : List (Act (Act (Notif α)))) (j : Nat) :
+    outputsOf j (runG (ofAgg lag op).lift () [] acts) = runI (ofAgg lag op).lift () none (restrict j acts) :=
+  apply_independent _ (lift_framed _ (ofAgg_framed lag op)) () acts j
+
+/-- the fixed `ref_count_`, with its subscribers, as an application-level family is framed too -/
+theorem refcount_lift_framed : Framed refCount.lift := lift_framed _ refcount_framed
+
+/-- two applications of one `skip(1)` operator function, one subscription each, interleaved -/
+example :
+    runG (ofOps false (Ops.skipOp (α := Nat) 1)).lift () []
+      [.create 0, .create 1, .act 0 (.create 0), .act 1 (.create 0), .act 0 (.act 0 (.next 5)), .act 1 (.act 0 (.next 6)),
+       .act 0 (.act 0 (.next 7)), .act 1 (.act 0 (.next 8))]
+    = [(0, (0, .next 7)), (1, (0, .next 8))] := by decide
+end catalogue
 
 example : factoryOk ⟨"operators/_x.py", "x_", "x_", "count", .cell, 0, some 2, false, true⟩ = false := by decide
 example : factoryOk ⟨"operators/_x.py", "x_", "x_", "rs", .subject, 0, none, true, true⟩ = false := by decide
